@@ -198,5 +198,29 @@ def correspond(ctx):
             sig = 'empty-phrase' if empty_phrase else 'matcher-property'
             ctx.report('property', sig, 'find(%r) with %r: %s' % (q, eff[:3], bad), failing_input=fi,
                        property_fails=True)
+    # ---------------- the second match strategy (MatchStrategy.AcAutomaton): same property, judged by the same oracle.
+    # On the pinned tree the port cannot even be constructed (AaNode never initialises Node's fields) — recorded finding
+    # `acautomaton-unusable`; should it ever be repaired, every probe below is judged by matcher_property like the trie.
+    ac_cases = [c for c in cases if c[2] == 'list' and c[0]][:: max(1, len(cases) // (4000 if ctx.thorough else 400))]
+    n_ac = 0
+    for dict_pairs, q, form in ac_cases:
+        kind = 'nwu' if (len(q) + len(dict_pairs)) % 2 else 'simple'
+        fi = {'op': 'StringMatcher(AcAutomaton).init+find', 'tokenizer': kind, 'dictionary': dict_pairs, 'query': q}
+        try:
+            sm = StringMatcher(MatchStrategy.AcAutomaton, tks[kind])
+            sm.init([p for p, _ in dict_pairs], [i for _, i in dict_pairs])
+            res = list(sm.find(q))
+        except Exception as e:
+            ctx.report('property', 'acautomaton-unusable', 'StringMatcher(MatchStrategy.AcAutomaton).init(%r) / find(%r) raises %s: %s'
+                       % ([p for p, _ in dict_pairs][:3], q, type(e).__name__, str(e)[:80]), failing_input=fi, property_fails=True)
+            n_ac += 1
+            continue
+        n_ac += 1
+        bad = matcher_property(tks[kind], dict_pairs, q, res)
+        if bad:
+            fi['property'] = bad
+            ctx.report('property', 'acautomaton-property', 'AcAutomaton find(%r) with %r: %s' % (q, dict_pairs[:3], bad),
+                       failing_input=fi, property_fails=True)
+    ctx.count('matcher-acautomaton', n_ac)
     ctx.sample({'op': lines[-1], 'implementation': impl[-1]})
     ctx.extra['exhaustive_tokenizer_length'] = L
